@@ -62,7 +62,8 @@ fn import_from_va<'a, P: Pe<'a>>(pe: P, &va: &'a Va) -> Result<Import<'a>> {
 		// TODO! Validate that this really is an Rva in PE32+?
 		let rva = va as Rva;
 		let hint = pe.derva::<u16>(rva)?;
-		let name = pe.derva_c_str(rva + 2)?;
+		// The name follows the hint, its rva does not fit if the hint sits at the very end of the address space
+		let name = pe.derva_c_str(rva.checked_add(2).ok_or(Error::Overflow)?)?;
 		Ok(Import::ByName { hint: *hint as usize, name })
 	}
 	else {
